@@ -121,4 +121,21 @@ class RestrictedFlow:
         return rhs_jac
 
     def residuum(self, z):
-        return np.linalg.norm(self.rhs(z, rho=0.0))
+        # first-order optimality of the point itself: components at a
+        # bound are judged by the direction of the flow for rho = 0,
+        # not by the filter, which was computed for the current rho
+        problem = self.problem
+        (x, _) = self.flow.split_states(z)
+
+        rhs = self.flow.rhs(z, rho=0.0)
+        (dx, _) = self.flow.split_states(rhs)
+
+        at_lb = Flow.isclose(x, problem.var_lb)
+        at_ub = Flow.isclose(x, problem.var_ub)
+
+        blocked = np.logical_or(
+            np.logical_and(at_lb, dx <= 0.0), np.logical_and(at_ub, dx >= 0.0)
+        )
+        dx[blocked] = 0.0
+
+        return np.linalg.norm(rhs)
